@@ -11,3 +11,13 @@ template CDNS::CdnsEncoder::CdnsEncoder(const std::string&, CDNS::CborOutputComp
 template CDNS::CdnsEncoder::CdnsEncoder(const int&, CDNS::CborOutputCompression);
 template void CDNS::CdnsEncoder::rotate_output<std::string>(const std::string&);
 template void CDNS::CdnsEncoder::rotate_output<int>(const int&);
+
+// Block tables: instantiate every member (the library itself only instantiates the members it calls,
+// e.g. never the copy constructor), so that the rules see the bodies user code would get.
+template class CDNS::BlockTable<CDNS::StringItem>;
+template class CDNS::BlockTable<CDNS::ClassType>;
+template class CDNS::BlockTable<CDNS::QueryResponseSignature>;
+template class CDNS::BlockTable<CDNS::IndexListItem>;
+template class CDNS::BlockTable<CDNS::Question>;
+template class CDNS::BlockTable<CDNS::RR>;
+template class CDNS::BlockTable<CDNS::MalformedMessageData>;
